@@ -175,6 +175,14 @@ class ConnectionState:
         if selected is not None:
             selected.deselect()
 
+    def close(self) -> None:
+        """The connection has ended, its selection must not be counted among
+        the selections of the mailbox any longer. Without this it is counted
+        until the object happens to be garbage-collected.
+
+        """
+        self._deselect()
+
     async def do_select(self, cmd: SelectCommand) -> _CommandRet:
         self._deselect()
         mailbox, updates = await self.session.select_mailbox(
